@@ -72,6 +72,28 @@ P = {
          "NOT decided: byte equality of relayed bodies, HTTP/2 push, ResponseController unwrapping. Trusted: go/ssa, analyser.", "3/C20"),
 }
 
+
+# clauses added after testing against independent seeded changes (waves 2-3); appended to the level text
+EXTRA = {
+ "C02": " Also: the wrapped balancer's pool is changed only under the rebalancer mutex (must-lockset at call sites); every pool change resets the rotation state.",
+ "C03": " Also: the limiter fails closed (wrapped handler only on the nil edge of the extractor's and the consume routine's error); the TTL map is created with the configured capacity after all options ran; the entry lifetime has a proven lower bound >= 1; lastRefresh moves only in the refill routine; every TTL-map call of the limiter is inside the mutex; the advertised delay is exact (C13.R4).",
+ "C05": " Also: deadline tests through integer timestamps are rejected; no lock of the breaker is re-acquired while held (String() via %v included) and every acquisition is released on every path.",
+ "C06": " Also: utils.CopyHeaders never stores the source's value slices into the destination.",
+ "C07": " Also: the client writer's header map is obtained only when the attempt is final; relayed headers are appended, never assigned; hijacked only on success.",
+ "C08": " Also: the Host override does not precede the header rewriter; the default ports are returned only when the Host carries no port.",
+ "C09": " Also: no self-deadlock (lock in the must-lockset re-acquired); Clone/Export snapshots own their storage; the limiter's get-or-create is one critical section.",
+ "C10": " Also: the convergence step is guarded by current != configured only; result/application correlation decided by a relational flag fixpoint.",
+ "C11": " Also: cookie candidates and normal selection come from the same pool.",
+ "C12": " Also: lock pairing and no re-acquisition in package cbreaker.",
+ "C13": " Also: the refill shape of C03.R4 (credit exactly the elapsed time; checkpoint moves only with a credit).",
+ "C14": " Also: the TTL map has the configured capacity; the client.ip token is the parser's host (distinct peers never share state).",
+ "C15": " Also: Reader() is not taken after WriterOnce.Close() in the release routine (order derived from the dependency's SSA); the limit is applied to req.Body itself.",
+ "C16": " Also: utils.ProxyWriter forwards Header/Write/WriteHeader unchanged.",
+ "C17": " Also: a clone owns its bucket slice.",
+ "C18": " Also: the reset is complete (every part of RTMetrics, every bucket of counters and histograms, full-range loops); RTMetrics accesses are race-free so no recorded response is lost.",
+ "C20": " Also: headers are relayed by appending through a full-range, non-aliasing copy; the limiter's bookkeeping call cannot fail for any configured rate.",
+}
+
 NA = {}
 
 def main():
@@ -83,6 +105,7 @@ def main():
         pid = pr["id"]
         if pid in have and pid in P:
             tech, text, note, ref = P[pid]
+            text = text + EXTRA.get(pid, "")
             checks.append({
                 "property_id": pid,
                 "quick_cmd": f"bin/oxycheck check -p {pid} -tier quick",
